@@ -404,8 +404,8 @@ def o_sock_conserve(out, a, ctx):
     rest = impl.unhx(buf)
     if not src.startswith(got + rest):
         return "bytes delivered (+ buffered) are not a prefix of the peer's stream"
-    if not a["faulty"] and a.get("drained") and got + rest != src:
-        return "bytes lost: %d delivered+buffered of %d" % (len(got + rest), len(src))
+    if a.get("drained") and got + rest != src:
+        return "bytes lost: after reading until the peer closed, %d of the %d bytes it sent were delivered or buffered" % (len(got + rest), len(src))
     return None
 
 
@@ -552,7 +552,7 @@ def adversarial_stream(ctx):
     rng = ctx.rng
     parts = []
     for _ in range(rng.randint(1, 6)):
-        k = rng.choice(["good", "good", "dmg", "trunc", "noise", "sync", "nmea", "badnmea", "ubx", "nested", "fakehdr", "zero"])
+        k = rng.choice(["good", "good", "dmg", "trunc", "noise", "sync", "nmea", "badnmea", "ubx", "nested", "fakehdr", "zero", "resframe"])
         if k == "good":
             parts.append(good_frames(ctx, 1)[0])
         elif k == "dmg":
@@ -573,7 +573,17 @@ def adversarial_stream(ctx):
         elif k == "nested":
             parts.append(nested_frame(ctx)[0])
         elif k == "fakehdr":
-            parts.append(bytes([0xd3, rng.randrange(4), rng.randrange(12)]) + gens.gen_noise(rng, rng.randint(0, 10), inert=False))
+            parts.append(bytes([0xd3, rng.choice([0, 1, 2, 3, 4, 5, 7, 8, 0x40, 0x80, 0xfc]), rng.randrange(12)]) + gens.gen_noise(rng, rng.randint(0, 10), inert=False))
+        elif k == "resframe":
+            # a block that looks like a frame except that one of the six reserved bits is set,
+            # with a body of the length its 16 length bits announce and a CRC that checks
+            b2 = rng.choice([0x04, 0x04, 0x05, 0x08, 0x10])
+            b3 = rng.randrange(8)
+            body = good_frames(ctx, 1)[0][3:-3]
+            L = (b2 << 8) | b3
+            body = (body + bytes([0x55]) * L)[:L]
+            blk = bytes([0xd3, b2, b3]) + body
+            parts.append(blk + gens.crc24q_ref(blk).to_bytes(3, "big"))
         else:
             parts.append(frame(b""))
     return b"".join(parts)
@@ -1176,8 +1186,14 @@ def cases_C11(ctx):
 
     def one(src, segs, bufsize, faults, klass):
         reads = sock_reads(rng, len(src))
+        drained = rng.random() < 0.5
+        if drained:
+            # keep reading single bytes until the peer has certainly closed: every byte the peer sent
+            # must come out, whatever timeouts / OS errors happened on the way
+            reads = reads + ["1"] * (len(src) + (len(faults) if faults else 0) + 3)
         line = "sock 0 %d %s %s -" % (bufsize, recv_tok(segs, faults), ",".join(reads))
-        cs.append(case(line, klass, ("sock_conserve", {"source": hx(src), "reads": reads, "faulty": bool(faults), "drained": False})))
+        cs.append(case(line, klass + (":drained" if drained else ""),
+                       ("sock_conserve", {"source": hx(src), "reads": reads, "faulty": bool(faults), "drained": drained})))
     for _ in range(ctx.n(600, 6000)):
         src = bytes(rng.getrandbits(8) if rng.random() < 0.8 else 10 for _ in range(rng.choice([0, 1, 2, 5, 17, 60, 200])))
         segs = gens.partitions(rng, src, rng.choice(["random", "random", "one", "bytes"]))
@@ -1283,6 +1299,25 @@ def cases_C13(ctx):
                 corpus.append(("msg %d %s" % (rng.choice([1, 2]), hx(r["payload"])), e["key"] + ":samemask"))
             except gens.BuildError:
                 pass
+    # the same constellation with masks that are bit-shifts of each other, under both label options
+    for _ in range(ctx.n(20, 200)):
+        e = rng.choice(msm)
+        try:
+            r0 = ctx.b.build(e, "small", "random", "random")
+        except gens.BuildError:
+            continue
+        m394 = next(o.bits for o in r0["occs"] if o.name == "DF394")
+        m395 = next(o.bits for o in r0["occs"] if o.name == "DF395")
+        for sh394, sh395 in ((0, 0), (0, 1), (1, 0), (1, 1)):
+            a, b2 = (m394 << sh394) & (2 ** 64 - 1), (m395 << sh395) & (2 ** 32 - 1)
+            if bin(a).count("1") * bin(b2).count("1") > 64 or not a or not b2:
+                continue
+            for lab in (1, 2):
+                try:
+                    r = ctx.b.build(e, "small", "random", "random", overrides={"DF394": a, "DF395": b2})
+                    corpus.append(("msg %d %s" % (lab, hx(r["payload"])), e["key"] + ":shift"))
+                except gens.BuildError:
+                    pass
     bad = ["msg 1 " + hx(bytes(rng.getrandbits(8) for _ in range(rng.randint(0, 6)))) for _ in range(ctx.n(40, 400))]
     order = corpus + [(b, "bad") for b in bad]
     for rep in range(ctx.n(3, 8)):
